@@ -174,7 +174,6 @@ inductive TK where
   | inspect            -- `get_methods(LOCAL_ATTRS, obj)`
   | probeConn          -- `hasattr(obj, "____conn__")`
   | modLookup          -- `sys.modules.get(prefix)` in `netref.class_factory` (a lookup, never an import)
-  | modGetattr         -- `getattr(module, class_name, None)` in `netref.class_factory`
   | mkclass            -- the rest of `netref.class_factory(id_pack, methods)`: one method per entry, `type(...)`
   | cleanup            -- `self._local_root.on_disconnect(self)`
   deriving DecidableEq, Repr, Inhabited
@@ -586,16 +585,14 @@ def dotCuts (name : PyStr) : List (PyStr × PyStr) :=
   (name, []) :: (((List.range name.length).reverse.filter (fun i => name[i]? == some 46)).map
     (fun i => (name.take i, name.drop (i + 1))))
 
-/-- the name resolution of `netref.class_factory`: `sys.modules.get(prefix)` for each candidate until one is there,
-then ONE `getattr(module, rest, None)`.  Nothing is imported: a module that is not already in `sys.modules` is skipped. -/
+/-- the name resolution of `netref.class_factory`: `sys.modules.get(prefix)` for each candidate until one is there;
+the class is then read out of that module's namespace (`vars(module).get(rest)`: data, no code runs - in particular
+not a module-level `__getattr__`).  Nothing is imported: a module that is not already in `sys.modules` is skipped. -/
 def classLookup : List (PyStr × PyStr) → M Unit
   | [] => pure ()
-  | (p, cn) :: rest => do
+  | (p, _) :: rest => do
     let m ← prim { kind := .modLookup, subj := .imm (.str p) }
-    if isNone m then classLookup rest
-    else do
-      let _ ← prim { kind := .modGetattr, subj := m, args := [.imm (.str cn)] }
-      pure ()
+    if isNone m then classLookup rest else pure ()
 
 /-- `_netref_factory(id_pack)`: class from the per-connection cache (classes only), from the builtin cache,
 or after asking the peer (`HANDLE_INSPECT`) and building it (`netref.class_factory`) -/
@@ -746,12 +743,16 @@ def hashKey (x : PV) : M Unit :=
     let _ ← prim { kind := .hash, subj := other }
     pure ()
 
-/-- `_cleanup`: flag, channel, the service's `on_disconnect`, the four tables -/
+/-- `_cleanup`: flag, channel, the service's `on_disconnect`, and - whatever that hook does (`try … finally`) - the four
+tables; the hook's exception, if any, goes on -/
 def cleanup : M Unit := do
   modify (fun st => { st with closed := true, log := st.log ++ [.cleaned] })
   let c ← getCtx
-  let _ ← prim { kind := .cleanup, subj := .obj c.root }
+  let r ← attempt (prim { kind := .cleanup, subj := .obj c.root })
   modify (fun st => { st with table := [], proxies := [], classes := [], pending := [], results := [] })
+  match r with
+  | .error x => throwX x
+  | .ok _ => pure ()
 
 def hPing : List PV → M PV
   | [d] => pure d
